@@ -286,7 +286,11 @@ func LiveMPD(a *asset, mpdName string, cfg *ResponseConfig, drmCfg *drm.DrmConfi
 			if err != nil {
 				return nil, fmt.Errorf("adjustASForSegmentNumber: %w", err)
 			}
-			mpd.PublishTime = mpd.AvailabilityStartTime
+			if cfg.liveMPDType() == segmentNumber {
+				// Only a plain $Number$ MPD never changes. An image adaptation set inside
+				// a SegmentTimeline MPD must not reset the publishTime of the timeline.
+				mpd.PublishTime = mpd.AvailabilityStartTime
+			}
 		default:
 			return nil, fmt.Errorf("unknown mpd type")
 		}
